@@ -577,9 +577,26 @@ func (f *Frame) contractCall(c *ssa.CallCommon, ct *FuncContract, callee *ssa.Fu
 		if lab == "" {
 			lab = "pre"
 		}
-		if frameOnly || preAsPanic {
+		owed := false
+		for _, t := range r.Tags {
+			if t == "owed" {
+				owed = true
+			}
+		}
+		if (frameOnly || preAsPanic) && !owed {
 			// frame-only verification: the callee's functional guarantees are used only where its preconditions hold
 			preHolds = and(preHolds, substSX(r.Term, envPre))
+			continue
+		}
+		if owed {
+			// requires[..,owed]: an obligation of every caller, also of those verified for their frame only
+			var nt []string
+			for _, t := range r.Tags {
+				if t != "owed" {
+					nt = append(nt, t)
+				}
+			}
+			f.oblige("callee_requires", anchor+"."+lab, implies(f.pc, substSX(r.Term, envPre)), nt, r.Src)
 			continue
 		}
 		f.oblige("callee_requires", anchor+"."+lab, implies(f.pc, substSX(r.Term, envPre)), nil, r.Src)
